@@ -26,6 +26,12 @@ func (c *Ctx) c01Scenario(i int) *scenario {
 	if len(sc.plain) > chunkSize && !c.thorough() && i%2 == 1 {
 		sc.plain = sc.plain[:c.rng.intn(500)]
 	}
+	if sc.armor && len(sc.plain) > chunkSize && !c.thorough() {
+		sc.armor = false // the model de-armors 175 KB of text in ~10 s; large armored files are C05 / C12 / C13's
+	}
+	if len(sc.plain) >= chunkSize && i%2 == 0 {
+		sc.step = []int{32 * 1024, 4096, chunkSize - 1, 50000}[c.rng.intn(4)] // not one Write: what io.Copy and real callers do
+	}
 	return sc
 }
 
